@@ -1,3 +1,5 @@
+//go:build p_c02 || p_all
+
 package main
 
 func init() {
